@@ -31,7 +31,11 @@ CT = 'commands::test'
 EC = 'rules::eval_context'
 
 UNITS = {
-    'U-unary-probe': dict(functions='probe', cls='probe', quick=reg('rules::eval', ['k_unsp_empty_int', 'k_unsp_empty_unres', 'k_unsp_empty_nosel', 'k_unsp_empty_null']) + reg('rules::eval_context', ['k_failed_min']), thorough=[], assumptions=[], timeout=900, mem_gb=12),
+    'U-unary-special': dict(functions='eval::unary_operation, result-set branch (`%v empty` / filter emptiness); record_unary_clause stubbed (not on this path)',
+                            cls='bounded (one value of kind Int / Null / UnResolved, empty selection); complete in operator-not x prefix-not',
+                            quick=reg('rules::eval', ['k_unsp_empty_int', 'k_unsp_empty_unres', 'k_unsp_empty_nosel', 'k_unsp_empty_null']), thorough=[],
+                            assumptions=STUBS + ['Kani stub: record_unary_clause -> trivial recorder (the per-value closure path is not reached by these harnesses)'], timeout=900, mem_gb=12),
+    'U-unary-probe': dict(functions='probe', cls='probe', quick=reg('rules::eval', ['k_unw_exists_int', 'k_unw_empty_unres', 'k_unw_isstring_str']), thorough=[], assumptions=[], timeout=900, mem_gb=12),
     'U-failed': dict(functions='eval_context::report_all_failed_clauses_for_rules', cls='bounded (2 rule records x status x 3 payload-free child configurations)',
                      quick=reg('rules::eval_context', ['k_failed_00', 'k_failed_01', 'k_failed_12', 'k_failed_20', 'k_failed_11']), thorough=[], assumptions=[STUBS[0]], timeout=900, mem_gb=8),
     'U-binflip': dict(functions='operators: impl Comparator for (CmpOperator, bool), CmpOperator, EqOperation, InOperation, CommonOperator, match_value',
